@@ -14,7 +14,8 @@
 From Coq Require Import String.
 From Sakura.Model Require Import Base Cursor Song Token LexCore RunCore Compile.
 From Sakura.Gen Require Import Consts Messages SysFuncRows WriteSites.
-From Sakura.Proofs Require Import LayoutP LogP LocalityP LogExecP.
+From Sakura.Proofs Require Import LayoutP LogP LocalityP LogExecP FuelMonoP.
+From Sakura.Gen Require Import VarRows.
 Open Scope list_scope.
 Open Scope Z_scope.
 
@@ -186,6 +187,23 @@ Example C19_after_end_example : exists acc ls',
   lex ls00 (zs "c d;End [ x { FUNCTION F(){ } TR(") 0 = Ok (acc, ls') /\ lex ls00 (zs "c d;End") 0 = Ok (acc, ls') /\ length acc = 3%nat.
 Proof. exact end_example. Qed.
 
+(* ... and at the level of compile (bytes AND log): under the same premises, the text with anything after the word compiles to
+   exactly what the text ending with the word compiles to - provided that one does not run out of fuel.  (run_source hands
+   exec() the nesting fuel S (length src): the longer text has more of it, so the answer of the shorter one carries over by
+   C05_exec_fuel_mono; the converse direction would need the shorter text's fuel to suffice.) *)
+Theorem C19_after_end_compile : forall (its0 : list litem) (p : cprog) (t : list Z) lsA lnA hA accA lsB lnB hB accB,
+  forallb litem_ok its0 = true -> forallb is_layout its0 = true ->
+  lex_pre (print_items its0 ++ print_cprog p ++ zs "End" ++ t) = false -> lex_pre (print_items its0 ++ print_cprog p ++ zs "End") = false ->
+  (forall f, runs f (mkLex 96 [] init_vars rhythm_rows) (0 + items_lines its0) false ([TLineNo 0] ++ items_toks 0 its0) p (zs "End" ++ t) lsA lnA hA accA) ->
+  (forall f, runs f (mkLex 96 [] init_vars rhythm_rows) (0 + items_lines its0) false ([TLineNo 0] ++ items_toks 0 its0) p (zs "End") lsB lnB hB accB) ->
+  compile (print_items its0 ++ print_cprog p ++ zs "End") <> OutOfFuel ->
+  compile (print_items its0 ++ print_cprog p ++ zs "End" ++ t) = compile (print_items its0 ++ print_cprog p ++ zs "End").
+Proof. exact after_end_compile. Qed.
+Example C19_after_end_compile_example :
+  compile (zs "c d;End [ x { FUNCTION F(){ } TR(") = compile (zs "c d;End") /\
+  exists bytes log, compile (zs "c d;End") = Ok (bytes, log).
+Proof. exact end_compile_example. Qed.
+
 Print Assumptions C19_constants.
 Print Assumptions C19_log_bound.
 Print Assumptions C19_lex_log_bound.
@@ -204,3 +222,4 @@ Print Assumptions C19_exec_log_bound.
 Print Assumptions C19_compile_log_chars.
 Print Assumptions C19_after_end_loop.
 Print Assumptions C19_after_end_partial.
+Print Assumptions C19_after_end_compile.
